@@ -80,13 +80,18 @@ inductive Ev where
   `ImportError`; between `tryBegin` and `tryExcept` the body (and the `else` part), between
   `tryExcept` and `tryEnd` the handler -/
   | tryBegin
-  | tryExcept
+  /-- `mask`: which of the would-be failures the handler catches (bit 0: `ImportError`,
+  bit 1: `NameError`, bit 2: `AttributeError`; `except Exception` / a bare `except` catch all) -/
+  | tryExcept (mask : Nat)
   | tryEnd
   /-- in a function body: `global n; n = …` (also `globals()["n"] = …`): binds the module's global
   at call time -/
   | gbind (n : Name)
   /-- in a function body: `global n; del n`: unbinds the module's global at call time -/
   | gunbind (n : Name)
+  /-- `n = root.a.b` where `n` is bound by nothing but such assignments (an alias of a module, as in
+  `flow_mod = lena.flow`): the chain is read, and `n` is bound to what it denotes -/
+  | alias (n : Name) (root : Name) (chain : List Name)
   deriving DecidableEq, Repr, Inhabited
 
 /-- a function, method or lambda body (call-time code) -/
@@ -104,10 +109,53 @@ structure Module where
   short : Name
   /-- `__all__` when it is a literal list -/
   all : Option (List Name)
+  /-- `__all__` is computed (`a + b`, `.extend(…)`): the advertised names are not known statically -/
+  allDynamic : Bool
   /-- module-level code (import time), class bodies and `def` headers included -/
   evs : List Ev
   funcs : List Func
   deriving Repr, Inhabited
+
+/-- a class named in a `class` statement's bases or in a `raise` statement -/
+inductive ClassRef where
+  /-- a class of the tree (index into `Facts.classes`) -/
+  | cls (i : Nat)
+  /-- a builtin (`KeyError`, `Exception`, `object`) -/
+  | builtin (n : Name)
+  /-- an expression the translator cannot name (`raise err`, `raise self._exc`) -/
+  | unknown
+  deriving DecidableEq, Repr, Inhabited
+
+/-- a `class` statement -/
+structure ClassFact where
+  mod : ModId
+  name : Name
+  line : Nat
+  bases : List ClassRef
+  /-- defined in `lena/core/exceptions.py`: one of the documented lena exceptions -/
+  isLenaExc : Bool
+  deriving DecidableEq, Repr, Inhabited
+
+/-- a `raise X(…)` / `raise X` statement -/
+structure RaiseFact where
+  mod : ModId
+  fn : Name
+  line : Nat
+  what : ClassRef
+  /-- inside `__getattr__` / `__setattr__` / `__delattr__` / `__getattribute__`, where Python's own
+  protocol asks for the builtin `AttributeError` -/
+  protocol : Bool
+  deriving DecidableEq, Repr, Inhabited
+
+/-- a read of a local that CPython's own definite-assignment analysis cannot prove bound
+(`LOAD_FAST_CHECK`): a possible `UnboundLocalError` -/
+structure UnboundFact where
+  mod : ModId
+  fn : Name
+  var : Name
+  /-- looked at by a person and found guarded (the reasons are in `harness/props/c20.py`) -/
+  audited : Bool
+  deriving DecidableEq, Repr, Inhabited
 
 structure Facts where
   mods : List Module
@@ -127,6 +175,14 @@ structure Facts where
   third-party modules that module-level code imports (or, when there are many: as installed,
   none absent, each one absent, all absent) -/
   envs : List Nat
+  /-- every `class` statement of the tree -/
+  classes : List ClassFact
+  /-- the class `LenaException` (index into `classes`) -/
+  excRoot : Option Nat
+  /-- every `raise` statement of the tree that names a class -/
+  raises : List RaiseFact
+  /-- every possibly-unbound local read of the tree -/
+  maybeUnbound : List UnboundFact
   deriving Repr, Inhabited
 
 /-- the failures the property is about (plus the two ways the interpreter itself can give up) -/
@@ -278,7 +334,7 @@ def layoutOk (F : Facts) : Bool :=
     (M.all.getD []).all (fun n => Nat.blt n F.nNames) &&
     let evOk : Ev → Bool := fun e =>
       match e with
-      | .bind n | .unbind n | .bindMod n _ | .gbind n | .gunbind n => Nat.blt n F.nNames
+      | .bind n | .unbind n | .bindMod n _ | .gbind n | .gunbind n | .alias n _ _ => Nat.blt n F.nNames
       | .fromName _ n a => Nat.blt n F.nNames && Nat.blt a F.nNames
       | _ => true
     M.evs.all evOk && M.funcs.all (fun f => f.evs.all evOk))
@@ -376,28 +432,56 @@ def execFroms (F : Facts) (imp : Imp) (sc : Scope) (m : ModId) :
     | .ok ⟨σ', loc', some x⟩ => .ok ⟨σ', loc', some x⟩
     | .ok ⟨σ', loc', none⟩ => execFroms F imp sc m r loc' σ'
 
-/-- what the interpreter is doing: executing; unwinding because of an `ImportError` for the absent
-third-party module `x` (looking for the handler of the innermost enclosing `try`: `d` counts the
-`try` statements opened while skipping, `r` the regions); or skipping the handler of a `try` whose
-body ran to its end -/
+/-- an exception that unwinds the code: the `ImportError` of an absent third-party module, or one
+of the would-be failures (`NameError`, `AttributeError` on a lena module, `ImportError` for a
+lena name) on its way to a handler that may catch it -/
+inductive Exc where
+  | ext (x : Nat)
+  | err (e : Err)
+  deriving Repr, Inhabited
+
+/-- bit 0: `ImportError`, bit 1: `NameError`, bit 2: `AttributeError`; `0`: nothing catches it -/
+def Exc.kind : Exc → Nat
+  | .ext _ => 1
+  | .err (.nameError _ _ _) => 2
+  | .err (.attrError _ _ _ _ _) => 4
+  | .err (.importError _ _ _ _) => 1
+  | .err (.noModule _ _ _) => 1
+  | .err _ => 0
+
+/-- what the interpreter is doing: executing; unwinding because of the exception `x` (looking for
+the handler of the innermost enclosing `try`: `d` counts the `try` statements opened while
+skipping, `r` the regions); or skipping the handler of a `try` whose body ran to its end -/
 inductive Mode where
   | run
-  | raising (x : Nat) (d r : Nat)
+  | raising (x : Exc) (d r : Nat)
   | skipping (d r : Nat)
   deriving Repr, Inhabited
+
+/-- follow `v.a.b.c` to the value it denotes (an opaque object ends the chain) -/
+def walkVal (F : Facts) (σ : State) : Val → List Name → Except (ModId × Name) Val
+  | v, [] => .ok v
+  | .obj, _ => .ok .obj
+  | .mod p, a :: r =>
+    match σ.get F p a with
+    | none => .error (p, a)
+    | some v => walkVal F σ v r
 
 /-- execute a list of events; `imp` is the import machinery (`ensure`), `saved` the snapshots
 taken by `enter` -/
 def execEvs (F : Facts) (imp : Imp) (sc : Scope) :
     List Ev → Mode → List (State × Ns) → Ns → State → Res
-  | [], .raising x _ _, _, loc, σ => .ok ⟨σ, loc, some x⟩
+  | [], .raising (.ext x) _ _, _, loc, σ => .ok ⟨σ, loc, some x⟩   -- goes on to the importer / caller
+  | [], .raising (.err e) _ _, _, _, _ => .error e                   -- nothing caught it: the failure
   | [], _, _, loc, σ => .ok ⟨σ, loc, none⟩
   | ev :: rest, .raising x d r, saved, loc, σ =>
     match ev with
     | .tryBegin => execEvs F imp sc rest (.raising x (d + 1) r) saved loc σ
-    | .tryExcept =>
+    | .tryExcept mask =>
       match d with
-      | 0 => execEvs F imp sc rest .run saved loc σ          -- the handler catches it
+      | 0 =>
+        if Nat.land mask x.kind != 0 then execEvs F imp sc rest .run saved loc σ   -- the handler catches it
+        else execEvs F imp sc rest (.raising x 1 r) saved loc σ   -- not this handler: on to its `tryEnd`
       | _ + 1 => execEvs F imp sc rest (.raising x d r) saved loc σ
     | .tryEnd => execEvs F imp sc rest (.raising x (d - 1) r) saved loc σ
     | .enter => execEvs F imp sc rest (.raising x d (r + 1)) saved loc σ
@@ -441,54 +525,68 @@ def execEvs (F : Facts) (imp : Imp) (sc : Scope) :
       if sc.fn.isSome then
         match lookup n loc with
         | some _ => execEvs F imp sc rest .run saved (erase n loc) σ
-        | none => .error (.nameError sc.mod sc.fn n)
+        | none => execEvs F imp sc rest (.raising (.err (.nameError sc.mod sc.fn n)) 0 0) saved loc σ
       else
         match σ.get F sc.mod n with
         | some _ => execEvs F imp sc rest .run saved loc (σ.set F sc.mod n none)
-        | none => .error (.nameError sc.mod sc.fn n)
+        | none => execEvs F imp sc rest (.raising (.err (.nameError sc.mod sc.fn n)) 0 0) saved loc σ
     | .load n =>
       match lookupScope F σ sc loc n with
       | some _ => execEvs F imp sc rest .run saved loc σ
-      | none => .error (.nameError sc.mod sc.fn n)
+      | none => execEvs F imp sc rest (.raising (.err (.nameError sc.mod sc.fn n)) 0 0) saved loc σ
     | .attr root chain =>
       match lookupScope F σ sc loc root with
-      | none => .error (.nameError sc.mod sc.fn root)
+      | none => execEvs F imp sc rest (.raising (.err (.nameError sc.mod sc.fn root)) 0 0) saved loc σ
       | some v =>
         match walk F σ v chain with
         | none => execEvs F imp sc rest .run saved loc σ
-        | some (p, a) => .error (.attrError sc.mod sc.fn root p a)
+        | some (p, a) =>
+          execEvs F imp sc rest (.raising (.err (.attrError sc.mod sc.fn root p a)) 0 0) saved loc σ
+    | .alias n root chain =>
+      match lookupScope F σ sc loc root with
+      | none => execEvs F imp sc rest (.raising (.err (.nameError sc.mod sc.fn root)) 0 0) saved loc σ
+      | some v =>
+        match walkVal F σ v chain with
+        | .error (p, a) =>
+          execEvs F imp sc rest (.raising (.err (.attrError sc.mod sc.fn root p a)) 0 0) saved loc σ
+        | .ok w =>
+          match bindIn F sc loc σ n w with
+          | (σ', loc') => execEvs F imp sc rest .run saved loc' σ'
     | .ensure m =>
       match imp m σ with
       | .error e => .error e
       | .ok (σ', none) => execEvs F imp sc rest .run saved loc σ'
-      | .ok (σ', some x) => execEvs F imp sc rest (.raising x 0 0) saved loc σ'
+      | .ok (σ', some x) => execEvs F imp sc rest (.raising (.ext x) 0 0) saved loc σ'
     | .fromName m n asn =>
       match execFrom F imp sc m n asn loc σ with
+      | .error (.importError a b c d) =>
+        -- this statement's own `ImportError: cannot import name`: a handler of this code may catch it
+        execEvs F imp sc rest (.raising (.err (.importError a b c d)) 0 0) saved loc σ
       | .error e => .error e
       | .ok ⟨σ', loc', none⟩ => execEvs F imp sc rest .run saved loc' σ'
-      | .ok ⟨σ', loc', some x⟩ => execEvs F imp sc rest (.raising x 0 0) saved loc' σ'
+      | .ok ⟨σ', loc', some x⟩ => execEvs F imp sc rest (.raising (.ext x) 0 0) saved loc' σ'
     | .star m =>
       match execFroms F imp sc m (starNames F σ m) loc σ with
       | .error e => .error e
       | .ok ⟨σ', loc', none⟩ => execEvs F imp sc rest .run saved loc' σ'
-      | .ok ⟨σ', loc', some x⟩ => execEvs F imp sc rest (.raising x 0 0) saved loc' σ'
-    | .noModule n => .error (.noModule sc.mod sc.fn n)
+      | .ok ⟨σ', loc', some x⟩ => execEvs F imp sc rest (.raising (.ext x) 0 0) saved loc' σ'
+    | .noModule n => execEvs F imp sc rest (.raising (.err (.noModule sc.mod sc.fn n)) 0 0) saved loc σ
     | .enter => execEvs F imp sc rest .run ((σ, loc) :: saved) loc σ
     | .leave =>
       match saved with
       | [] => .error .malformed
       | (s, l) :: more => execEvs F imp sc rest .run more l s
     | .ext x =>
-      if F.isAbsent x then execEvs F imp sc rest (.raising x 0 0) saved loc σ
+      if F.isAbsent x then execEvs F imp sc rest (.raising (.ext x) 0 0) saved loc σ
       else execEvs F imp sc rest .run saved loc σ
     | .tryBegin => execEvs F imp sc rest .run saved loc σ
-    | .tryExcept => execEvs F imp sc rest (.skipping 0 0) saved loc σ
+    | .tryExcept _ => execEvs F imp sc rest (.skipping 0 0) saved loc σ
     | .tryEnd => execEvs F imp sc rest .run saved loc σ
     | .gbind n => execEvs F imp sc rest .run saved loc (σ.set F sc.mod n (some .obj))
     | .gunbind n =>
       match σ.get F sc.mod n with
       | some _ => execEvs F imp sc rest .run saved loc (σ.set F sc.mod n none)
-      | none => .error (.nameError sc.mod sc.fn n)
+      | none => execEvs F imp sc rest (.raising (.err (.nameError sc.mod sc.fn n)) 0 0) saved loc σ
 
 /-- the import machinery: `importMod F k m σ` makes sure `m` is in `sys.modules`, executing its
 code if it is not (`k` bounds the nesting depth of imports).  If the code raises an
@@ -590,9 +688,11 @@ def Explored.isClosed : Explored → Bool
 
 def exploreBound : Nat := 64
 
-/-- the advertised names of the package the entry imports exist: every name in `__all__` of
-every package mentioned by a `star` of the entry module is bound in the entry's namespace
-after the run, and is an attribute of the package -/
+/-- the advertised names of the package the entry imports exist: `__all__` of every package
+mentioned by a `star` of the entry module is a literal list, and every name in it is an attribute
+of the package after the entry's import.  (The star import itself is executed by the entry — in
+a region, so that what it may load does not count as "imported by `import lena.X`"; that it
+succeeds is part of `importEntry … = ok`.) -/
 def exportedB (F : Facts) (e : ModId) (σ : State) : Bool :=
   match F.modOf e with
   | none => false
@@ -601,7 +701,7 @@ def exportedB (F : Facts) (e : ModId) (σ : State) : Bool :=
       match ev with
       | .star p =>
         match F.modOf p with
-        | some P => (P.all.getD []).all (fun n => (σ.get F e n).isSome && (σ.get F p n).isSome)
+        | some P => !P.allDynamic && (P.all.getD []).all (fun n => (σ.get F p n).isSome)
         | none => false
       | _ => true)
 
@@ -621,6 +721,46 @@ def resolvesAll (F : Facts) : Bool :=
 whichever of the optional third-party modules (jinja2, …) can or cannot be imported -/
 def resolvesAllEnvs (F : Facts) : Bool :=
   F.envs.all (fun env => resolvesAll (F.withEnv env))
+
+/-! ## Exceptions and locals (static facts about `class` and `raise` statements)
+
+"Invalid arguments and missing keys are reported with the documented LenaException subclasses":
+what can be said over the facts is (1) every class of `lena/core/exceptions.py` has
+`LenaException` among its ancestors, (2) every `raise` statement that names a class names a
+class of the tree that derives from `LenaException`, or a builtin that has no lena counterpart
+(`ImportError`, `StopIteration`) — a builtin such as `TypeError`, which `LenaTypeError` wraps, is
+accepted only where Python's attribute protocol demands it (`__getattr__` must raise
+`AttributeError`). -/
+
+/-- class `i` has class `r` among its ancestors (through classes of the tree), `k` levels deep -/
+def derivesB (F : Facts) : Nat → Nat → Nat → Bool
+  | 0, i, r => Nat.beq i r
+  | k + 1, i, r =>
+    Nat.beq i r ||
+      match F.classes[i]? with
+      | some C => C.bases.any (fun b => match b with | .cls j => derivesB F k j r | _ => false)
+      | none => false
+
+/-- the builtin exceptions that a documented lena exception wraps (`TypeError`, `KeyError`, …) -/
+def counterparts (F : Facts) : List Name :=
+  F.classes.flatMap (fun C =>
+    if C.isLenaExc then C.bases.filterMap (fun b => match b with | .builtin n => some n | _ => none) else [])
+
+def raiseOkB (F : Facts) (r : RaiseFact) : Bool :=
+  match r.what with
+  | .cls i => match F.excRoot with | some root => derivesB F F.classes.length i root | none => false
+  | .builtin b => r.protocol || !(counterparts F).any (Nat.beq b)
+  | .unknown => true
+
+/-- the documented exceptions derive from `LenaException`, and `raise` statements name them -/
+def exceptionsOk (F : Facts) : Bool :=
+  (match F.excRoot with
+   | some root => (zipIdx F.classes 0).all (fun iC => !iC.2.isLenaExc || derivesB F F.classes.length iC.1 root)
+   | none => false) &&
+  F.raises.all (raiseOkB F)
+
+/-- every possibly-unbound read of a local is an audited one -/
+def localsOk (F : Facts) : Bool := F.maybeUnbound.all (·.audited)
 
 /-! ## Diagnosis (what the driver prints; mirrors `resolvesAll`, but collects the failures) -/
 
